@@ -14,13 +14,14 @@ open Mkdb.Generated
 statement evaluator takes the shared lock first and releases it last, the log append happens
 inside that bracket, CREATE TABLE changes pages under the shared lock, `flushPages` holds the
 exclusive lock for its whole body, and the data file is written nowhere else; at start-up the
-header is read under the exclusive lock (the flusher of an opened store is already running), and no
-store other than the one `OpenRelation` returns is created with a flusher (`CreateDB` changes pages
-under no lock and flushes explicitly). -/
+flusher goroutine is started in one place only - as the last step of `fileStore.open`, after every
+read of the header (a flush rewrites the header from the fields `open` fills; a tick before that
+destroyed the database) - and no store other than the one `OpenRelation` returns is created with a
+flusher (`CreateDB` changes pages under no lock and flushes explicitly). -/
 theorem C13_all_bracketed :
     (∀ p ∈ lockBrackets, p.2 = true) ∧ lockCreateTableLocked = true ∧ lockFlushExclusive = true ∧
     lockTxnIsSharedLock = true ∧ lockPageWritesOnlyInFlush = true ∧ lockLogAppendInsideBracket = true ∧
-    lockOpenExclusive = true ∧ lockFlusherOnlyAfterOpen = true := by
+    lockFlusherAfterHeaderRead = true ∧ lockFlusherOnlyAfterOpen = true := by
   decide
 
 /-- **C13.exclusion**: in every state reachable under every schedule of bracketed statements and
